@@ -164,6 +164,125 @@ def _cr_fstring(node: ast.AST, templates: dict | None = None):
     return None
 
 
+def suffix_start(rep: Report, fn: ast.FunctionDef, construct: str, L: str, pieces: set[str]) -> None:
+    """a suffix range `bytes=-N` selects the last N bytes, and the whole resource when N >= length:
+    start == max(0, length - N).  A relation between three quantities is outside the zone domain, so the value
+    returned as `start` on the suffix paths is resolved through the locals of the path (E12 symbolic values) and
+    read structurally: `max(0, L - N)` in either order, or 0 / `L - N` under a comparison of N with L."""
+    from ..core import lin_atoms
+    from ..flow import Disjunctive, Flow, each_exit
+    from ..pathcond import PathCond, atoms_of, entails as pc_entails, f_not, f_or, show as pc_show, sym_values
+    order = _piece_order(fn)
+    if len(order) != 2:
+        return
+    p_first, p_last = order
+    upd, resolve = sym_values(max_len=400)
+    found = 0
+
+    def is_n(e: ast.AST) -> bool:
+        return isinstance(e, ast.Call) and norm(e.func) == 'int' and e.args and norm(e.args[0]) == p_last
+
+    def form(e: ast.AST):
+        """linear form over L and N ('N' stands for int(<last piece>)), or None"""
+        class R(ast.NodeTransformer):
+            def visit_Call(self, node):
+                if is_n(node):
+                    return ast.copy_location(ast.Name(id='N__', ctx=ast.Load()), node)
+                return self.generic_visit(node)
+        import copy
+        f_ = lin_atoms(R().visit(copy.deepcopy(e)))
+        if f_ is None or any(k not in (L, 'N__', '') and not k.lstrip('-').isdigit() for k in f_):
+            return None
+        return {k: v for k, v in f_.items() if v}
+
+    def on_ret(kind, st, state):
+        nonlocal found
+        if kind != 'return' or st is None or not isinstance(st.value, ast.Tuple) or len(st.value.elts) != 4:
+            return
+        pc = state[0]
+        suffix_atoms = [('atom', f"{p_first} == ''"), f_not(('atom', p_first)), ('atom', f"'' == {p_first}"),
+                        ('atom', f'not {p_first}'), ('atom', f'len({p_first}) == 0')]
+        if not any(pc_entails(pc, a_) is True for a_ in suffix_atoms):
+            return
+        status = resolve(state, st.value.elts[2])
+        if not (isinstance(status, ast.Constant) and status.value == 206):
+            return
+        found += 1
+        e = resolve(state, st.value.elts[0])
+        key = f'suffix: start == max(0, {L} - int({p_last}))'
+        ok_ = False
+        if isinstance(e, ast.Call) and norm(e.func) == 'max' and len(e.args) == 2 and not e.keywords:
+            fs = [form(a_) for a_ in e.args]
+            ok_ = any(f_ == {} for f_ in fs if f_ is not None) and any(f_ == {L: 1, 'N__': -1} for f_ in fs if f_ is not None)
+        else:
+            f_ = form(e)
+            # what the path knows about length - N: every comparison atom that holds (or whose negation holds) on the
+            # path, with its locals written out, read as a bound on D = L - N
+            upper = lower = None        # D <= upper, D >= lower
+            for t_ in atoms_of(pc):
+                try:
+                    c_ = ast.parse(t_, mode='eval').body
+                except SyntaxError:
+                    continue
+                if not (isinstance(c_, ast.Compare) and len(c_.ops) == 1):
+                    continue
+                holds = pc_entails(pc, ('atom', t_)) is True
+                fails = pc_entails(pc, f_not(('atom', t_))) is True
+                if not (holds or fails):
+                    continue
+                lf, rf = form(resolve(state, c_.left)), form(resolve(state, c_.comparators[0]))
+                if lf is None or rf is None:
+                    continue
+                d_ = dict(lf)
+                for k_, v_ in rf.items():
+                    d_[k_] = d_.get(k_, 0) - v_
+                d_ = {k_: v_ for k_, v_ in d_.items() if v_}
+                const = -sum(v_ * int(k_ or 0) if k_.lstrip('-').isdigit() else 0 for k_, v_ in d_.items()) \
+                    if any(k_.lstrip('-').isdigit() for k_ in d_) else 0
+                core = {k_: v_ for k_, v_ in d_.items() if k_ in (L, 'N__')}
+                if core not in ({L: 1, 'N__': -1}, {L: -1, 'N__': 1}):
+                    continue
+                sign = 1 if core.get(L) == 1 else -1        # expression is sign * D + (-const)
+                k0 = -const
+                op = type(c_.ops[0])
+                if fails:
+                    op = {ast.Lt: ast.GtE, ast.LtE: ast.Gt, ast.Gt: ast.LtE, ast.GtE: ast.Lt, ast.Eq: ast.NotEq,
+                          ast.NotEq: ast.Eq}.get(op, None)
+                if op is None:
+                    continue
+                # sign*D + k0 (op) 0, integers
+                if op in (ast.LtE, ast.Lt):
+                    bound = -k0 - (1 if op is ast.Lt else 0)            # sign*D <= bound
+                    if sign == 1:
+                        upper = bound if upper is None else min(upper, bound)
+                    else:
+                        lower = -bound if lower is None else max(lower, -bound)
+                elif op in (ast.GtE, ast.Gt):
+                    bound = -k0 + (1 if op is ast.Gt else 0)            # sign*D >= bound
+                    if sign == 1:
+                        lower = bound if lower is None else max(lower, bound)
+                    else:
+                        upper = -bound if upper is None else min(upper, -bound)
+                elif op is ast.Eq:
+                    v0 = -k0 * sign
+                    upper = v0 if upper is None else min(upper, v0)
+                    lower = v0 if lower is None else max(lower, v0)
+            if f_ == {}:
+                ok_ = upper is not None and upper <= 0            # N >= L: the whole resource
+            elif f_ == {L: 1, 'N__': -1}:
+                ok_ = lower is not None and lower >= 0            # N <= L: exactly the last N bytes
+        if ok_:
+            rep.ok('R13.1', construct, key)
+        else:
+            rep.fail('R13.1', construct, key,
+                     f'on a suffix-range path the start returned with 206 is `{norm(e)[:100]}`, not max(0, {L} - int({p_last})): a '
+                     'suffix as long as or longer than the resource must select the whole resource (start 0), a shorter one '
+                     f'exactly its last N bytes (path: {pc_show(pc)[:100]})', st)
+    Flow(Disjunctive(PathCond(upd=upd, twin=resolve), cap=256), on_exit=each_exit(on_ret)).run(fn, [PathCond.initial()])
+    if found == 0:
+        raise AnalysisError('get_http_range: no 206 exit on a suffix-range path was found')
+
+
 def analyse_function(rep: Report) -> tuple[str, str]:
     tree = rep.repo.tree(BASE)
     cls = need(find_class(tree, 'RequestHandlerBase'), f'{BASE}::RequestHandlerBase')
@@ -176,6 +295,7 @@ def analyse_function(rep: Report) -> tuple[str, str]:
     pieces = _split_pieces(fn)
     if not pieces:
         raise AnalysisError("get_http_range: no `a, b = x.split('-')` idiom recognised")
+    suffix_start(rep, fn, construct, L, set(pieces))
     rep.axioms.append("pieces of s.split('-') contain no '-', so int(piece[, 10]) >= 0 "
                       '(or raises ValueError)')
     rep.axioms.append(f'{L} >= 0 (a length)')
